@@ -33,7 +33,9 @@ RSTStep(x, r) ==
             RSTRes([x EXCEPT !.owe = ""],
                    IF x.resetting /\ r.ev \in RSTStateEv
                    THEN {RSTErr("C12", r.ev \o " event passed to the subscribers while a re-fetch is outstanding (its answer is diffed against a cache that has the event applied already)")} ELSE {})
-      [] r.kind = "resetres" -> RSTRes([x EXCEPT !.resetting = TRUE], RSTOwed(x))
+      [] r.kind = "resetres" ->
+            RSTRes([x EXCEPT !.resetting = TRUE],
+                   RSTOwed(x) \cup (IF x.resetting THEN {RSTErr("C12", "re-fetch started while an earlier re-fetch of the resource is outstanding")} ELSE {}))
       [] r.kind = "rsResetAns" ->
             RSTRes([x EXCEPT !.resetting = FALSE, !.owe = ""],
                    RSTOwed(x) \cup (IF ~x.resetting THEN {RSTErr("C12", "re-fetch answer processed although no re-fetch is outstanding")} ELSE {}))
